@@ -112,6 +112,11 @@ def jobs(pid, tier):
     SEQ = {'C01': ['apply_and', 'apply_implies_neg'], 'C06': ['var', 'apply_and', 'let_const', 'exist', 'add_expr'],
            'C10': ['count', 'support'], 'C05': ['to_expr', 'add_expr'], 'C03': ['exist'], 'C04': ['let_const'],
            'C02': ['var', 'apply_implies_neg']}
+    if pid in ('C07', 'C02', 'C10'):
+        # ... and with the two levels exchanged in between (answers are by variable name)
+        sw = {'C07': ['var', 'let_const', 'exist', 'support'] + ([] if q else ['apply_and']), 'C02': ['var'],
+              'C10': ['count', 'support']}[pid]
+        J.append(Job('memo_seq', dict(N=2 if q else 3, L=2, K=3, ops=sw, middle='swap'), need_outcomes=['done:' + sw[0]]))
     if pid in SEQ:
         J.append(Job('memo_seq', dict(N=2, L=2, K=3, ops=SEQ[pid]), need_outcomes=['done:' + SEQ[pid][0]]))
         if not q:
